@@ -46,7 +46,10 @@ def worker_main(args):
     t0 = time.monotonic()
     try:
         common.setup_repo()
-        res = mod.work(shard, args.tier)
+        if '__replica__' in shard:
+            res = common.thread_replica(mod, shard['__replica__'], args.tier)
+        else:
+            res = mod.work(shard, args.tier)
     except common.Inconclusive as e:
         res = {'evaluations': 0, 'nontrivial': 0, 'violations': [], 'inconclusive': [str(e)]}
     res['wall_s'] = time.monotonic() - t0
@@ -142,6 +145,24 @@ def main():
     except common.Inconclusive as e:
         print('INCONCLUSIVE property=%s reason=%s' % (cid, e))
         return 2
+    if getattr(mod, 'THREAD_REPLICA', True):
+        rrng = common.rng_for(cid, 'replica')
+        cands = [s for s in shards if s.get('kind', 'mod') not in ('sweep', 'cp', 'thread', 'cold', 'hist')]
+        if hasattr(mod, 'replica_bases'):
+            groups = mod.replica_bases(args.tier, rrng)
+        else:
+            groups = []
+            for _ in range(2 if args.tier == 'quick' else 12):
+                if len(cands) >= 2:
+                    groups.append(rrng.sample(cands, 2))
+        for gi, g in enumerate(groups):
+            bases = []
+            for b in g:
+                b = dict(b)
+                if isinstance(b.get('modules'), list) and len(b['modules']) > 5:
+                    b['modules'] = rrng.sample(b['modules'], 5)
+                bases.append(b)
+            shards.append({'name': '__threads__%d' % gi, '__replica__': bases})
     timeout = getattr(mod, 'WATCHDOG', {'quick': 900, 'thorough': 6 * 3600})[args.tier]
     results = []
     with concurrent.futures.ThreadPoolExecutor(max_workers=args.jobs) as ex:
